@@ -185,6 +185,19 @@ func (e *Env) runMethods() error {
 				continue
 			}
 			alternate(req, spec.Invert)
+			if pass == 1 {
+				// second pass: vector arguments with many items (129..328), as a caller asking about a whole chat does
+				for i, p := range d.Params {
+					if items, ok := req.Fields[i].([]any); ok && p.Type.Kind == "vector" && len(items) > 0 {
+						k := 129 + int(n*37%200)
+						wide := make([]any, 0, k)
+						for j := 0; j < k; j++ {
+							wide = append(wide, items[j%len(items)])
+						}
+						req.Fields[i] = wide
+					}
+				}
+			}
 			want, err := tls.Encode(req)
 			if err != nil {
 				mr.Msg = "INFRA: request encoding: " + err.Error()
